@@ -1592,6 +1592,16 @@ class Parser:
             self.advance()  # Skip NEWLINE before fence
             return self.parse_literal_zone()
 
+        elif (
+            token.type == TokenType.NEWLINE
+            and self.peek().type == TokenType.INDENT
+            and self.peek(2).type == TokenType.FENCE_OPEN
+        ):
+            # Same, for a zone whose fence line is indented (value of a key inside a block)
+            self.advance()  # Skip NEWLINE before fence
+            self.advance()  # Skip the fence line's INDENT
+            return self.parse_literal_zone()
+
         elif token.type == TokenType.IDENTIFIER:
             # Check if this starts an expression with operators (GH#62, GH#65)
             next_token = self.peek()
